@@ -6,7 +6,7 @@ from hashlib import sha1
 
 import vf
 vf.use_repo()
-from ak.ghist import ProjectRepo, BuildNumData  # noqa: E402
+from ak.ghist import ProjectRepo, BuildNumData, GitRepo  # noqa: E402
 
 
 class Blob:
@@ -99,6 +99,40 @@ class TRepo(ProjectRepo):
         if len(nums) == 2:
             nums.append(None)
         return BuildNumData(*nums)
+
+
+class DiskRefsRepo(GitRepo):
+    """GitRepo that reads its refs from a real .git directory (GitRepo.iter_refs, the production code) while
+    the commit objects come from a mock repository"""
+
+    def __init__(self, mock_repo, git_dir):
+        # (git.Repo's constructor is not called: there is no object database)
+        self.__dict__['git_dir'] = git_dir
+        self.__dict__['_mock'] = mock_repo
+
+    remotes = property(lambda self: self._mock.remotes)
+
+    def commit(self, hexsha):
+        return self._mock.commit(hexsha)
+
+
+def write_packed_refs(repo, git_dir, rng):
+    """the state of .git after 'git pack-refs --all'; about half of the tags are annotated tags (the ref names a
+    tag object, the tagged commit follows in a '^' line).  Returns the number of annotated tags."""
+    import os
+    lines = ["# pack-refs with: peeled fully-peeled sorted "]
+    annotated = 0
+    for ref in sorted(repo.refs):
+        sha = repo.refs[ref].hexsha
+        if ref.startswith("refs/tags/") and rng.random() < 0.5:
+            annotated += 1
+            lines.append("%s %s" % (sha1(("tag object " + ref).encode()).hexdigest(), ref))
+            lines.append("^" + sha)
+        else:
+            lines.append("%s %s" % (sha, ref))
+    with open(os.path.join(git_dir, "packed-refs"), "w") as f:
+        f.write("\n".join(lines) + "\n")
+    return annotated
 
 
 class TRepoCI(TRepo):
